@@ -157,6 +157,7 @@ def forked(f):
             data = pickle.dumps(None)
         with os.fdopen(w, 'wb') as o:
             o.write(data)
+        vf.cov_dump()
         os._exit(0)
     os.close(w)
     with os.fdopen(r, 'rb') as i:
